@@ -9,6 +9,7 @@ import Nsq.Proofs.AggregateWrap
 import Nsq.Proofs.Latency
 import Nsq.Proofs.ViewOrder
 import Nsq.Proofs.AggregateViews
+import Nsq.Proofs.AggregateChannels
 /-!
 # C18 — nsqadmin's cluster view equals the sum of its parts
 
@@ -34,15 +35,15 @@ What is a statement about the upstreams and what is not (audit 7, C24): `sum_fie
 intermediate values (any list of reports / the reports GetNSQDStats returned); `topic_view_is_sum` and
 `channel_view_is_merge` only *unfold the handler* (they hold by the definition of `topicView` / `channelView` and
 are kept as lemmas). The statements that tie a view to the `World` are those of the section "The views and what the
-upstreams hold": `topic_view_from_upstreams`, `channel_view_from_upstreams`, `counter_view_from_upstreams`,
+upstreams hold": `topic_view_from_upstreams`, `topic_view_channels_from_upstreams`, `channel_view_from_upstreams`, `counter_view_from_upstreams`,
 `nodes_view_lookupd` / `_direct`, `node_view_from_upstream`, `topic_producers_direct`, `topic_view_shown_int64`,
-`partial_warning_*_nsqd`, and `inactive_warning` for `?inactive=true`.
+`partial_warning_*_nsqd`, and `inactive_warning`, `inactive_view_lists` for `?inactive=true`.
 -/
 namespace Nsq.Props.C18
 open Nsq.Model.Aggregate
 open Nsq.Proofs.AggregateNames Nsq.Proofs.AggregateSafe Nsq.Proofs.AggregateSums
 open Nsq.Proofs.AggregateMerge Nsq.Proofs.AggregateFetch Nsq.Proofs.AggregateDedup
-open Nsq.Proofs.AggregateViews
+open Nsq.Proofs.AggregateViews Nsq.Proofs.AggregateChannels
 
 /-! ## topics_union -/
 
@@ -643,6 +644,38 @@ example : (match channelView Fixes.all cvWorld "t1" "c1" with
     | .ok { status := 200, warn := false, body := .channel c } => (c.cnt.depth, c.clients.map (·.clientId), c.nodes.length)
     | _ => (0, [], 0)) = (7, ["a", "b"], 2) := by decide
 
+/-- **topic_view_channels_from_upstreams.** The merged channel list of `/api/topics/:t`, in both modes: with `crs` the
+channel objects of the topic objects named `:t` in the `/stats` answers of the stage-one producers (in order), the
+list has exactly one entry per channel name occurring in `crs`, and the entry of a name is made of *all* reports with
+that name: counters summed, clients concatenated, `paused` or-ed; its node list holds every report but the first
+(whose object the entry is). No hypothesis on duplicates: a node that lists a channel twice contributes two reports. -/
+theorem topic_view_channels_from_upstreams (w : World) (name : String) (v : View)
+    (h : topicView Fixes.all w name = .ok v) (h200 : v.status = 200) :
+    ∃ ps f1 t, getTopicProducers Fixes.all w name = .ok (.got ps f1) ∧ v.body = .topic t ∧
+      let crs := chansOfTopics (ps.flatMap (reportsOf w name "" false))
+      (t.channels.map (·.name)).Nodup ∧
+      (∀ n, n ∈ t.channels.map (·.name) ↔ ∃ r ∈ crs, r.name = n) ∧
+      ∀ c ∈ t.channels, ∃ a0 rest, crs.filter (fun r => r.name == c.name) = a0 :: rest ∧
+        c.cnt = sumFrom {} ((a0 :: rest).map (·.cnt)) ∧ c.nodes = rest ∧
+        c.clients = (a0 :: rest).flatMap (·.clients) ∧ c.paused = (a0 :: rest).any (·.paused) := by
+  obtain ⟨ps, f1, ts, m, f2, t, h1, h2, h3, h4⟩ := topic_view_is_sum w name v h h200
+  have hts := nsqdStats_reports w ps name "" false ts m f2 h2
+  subst hts
+  have hch := addAll_channels Fixes.all _ _ t h3
+  exact ⟨ps, f1, t, h1, h4, merged_spec _ _ (by simpa using hch)⟩
+
+/-- Non-vacuity: N0 reports `c1` twice (3, 1) and `c2`; N1 reports `c1` (4): `c1` = 8 with two further node entries. -/
+def mcWorld : World :=
+  { lookupds := [], nsqdAddrs := ["N0", "N1"],
+    nsqds := [{ addr := "N0", info := some info0, filters := true,
+                stats := some [some { tvTopic "t1" 0 0 with channels :=
+                  [some (cvChan 3 []), some (cvChan 1 []), some { cvChan 5 [] with name := "c2" }, none] }] },
+              { addr := "N1", info := some { info0 with addr := "N1" }, filters := true,
+                stats := some [some { tvTopic "t1" 0 0 with channels := [some (cvChan 4 [])] }] }] }
+example : (match topicView Fixes.all mcWorld "t1" with
+    | .ok { status := 200, warn := false, body := .topic t } => t.channels.map (fun c => (c.name, c.cnt.depth, c.nodes.length))
+    | _ => []) = [("c1", 8, 2), ("c2", 5, 0)] := by decide
+
 /-- The (key, value) pairs of `/api/counter`, read off the upstreams' answers: for every key of GetNSQDStats'
 channel map, one pair per channel object with that key — key `topic:channel:node` with the topic and channel name of
 the *first* such object, value its `message_count`. (`channels_merge` says what the map holds: exactly the channel
@@ -1098,6 +1131,50 @@ theorem inactive_warning : inactive_warning_for Fixes.all := by
       subst hv
       have := key ts m wn hgo hex
       simp [this]
+
+/-- **inactive_view_lists.** What `/api/topics?inactive=true` lists (nsqlookupd mode, with F58): exactly the topics of
+the topic list (`topics_union`: the union over the responding nsqlookupds) for which no responding nsqlookupd's
+`/lookup?topic=` answer holds a (non-null) producer, in the order of the list, each with the strictly sorted union of
+the channels the responding nsqlookupds report for it (`/channels?topic=`). -/
+theorem inactive_view_lists (w : World) (hl : w.lookupds ≠ []) (v : View)
+    (h : view Fixes.all w .topicsInactive = .ok v) (h200 : v.status = 200) :
+    ∃ ts f m, lookupdTopics w.lookupds = .got ts f ∧ v.body = .inactive m ∧
+      m.map (·.1) = ts.filter (fun t => !anyProducer (lookupdsFor w t)) ∧
+      ∀ t cs, (t, cs) ∈ m → cs.Pairwise (· < ·) ∧
+        ∀ c, c ∈ cs ↔ ∃ l ∈ w.lookupds, ∃ names, channelsFor w l t = some names ∧ c ∈ names := by
+  have hne : w.lookupds.isEmpty = false := by
+    cases hw : w.lookupds with
+    | nil => exact absurd hw hl
+    | cons _ _ => rfl
+  cases hts : lookupdTopics w.lookupds with
+  | allFailed =>
+    simp only [view, topicsInactiveView, hne, Bool.false_eq_true, if_false, hts, Except.ok.injEq] at h
+    subst h; simp at h200
+  | got ts f =>
+    rw [inactive_view_eq Fixes.all w ts f hne hts] at h
+    cases hgo : inactiveGo Fixes.all w ts with
+    | error e => simp [hgo] at h
+    | ok r =>
+      cases r with
+      | none => simp only [hgo, Except.ok.injEq] at h; subst h; simp at h200
+      | some x =>
+        obtain ⟨m, wn⟩ := x
+        simp only [hgo, Except.ok.injEq] at h
+        subst h
+        obtain ⟨g1, g2⟩ := inactiveGo_spec w ts m wn hgo
+        refine ⟨ts, f, m, rfl, rfl, g1, fun t cs hm => ?_⟩
+        obtain ⟨f2, hu⟩ := g2 t cs hm
+        obtain ⟨u1, u2⟩ := unionNames_spec _ cs f2 hu
+        refine ⟨u1, fun c => ?_⟩
+        rw [u2]
+        simp only [channelAnswers, List.mem_map]
+        constructor
+        · rintro ⟨a, ⟨l, hl', rfl⟩, names, hs, hc⟩; exact ⟨l, hl', names, hs, hc⟩
+        · rintro ⟨l, hl', names, hs, hc⟩; exact ⟨_, ⟨l, hl', rfl⟩, names, hs, hc⟩
+
+/-- Non-vacuity: in `inactiveWorld` no responding nsqlookupd lists a producer of `t1` (L1, which would, fails). -/
+example : anyProducer (lookupdsFor inactiveWorld "t1") = false := by decide
+example : anyProducer inactiveWorld.lookupds = true := by decide
 
 /-- Direct mode: every topic an nsqd reports is live on it — the map is empty; the warning is that of the topic list. -/
 example : (match view Fixes.all tvWorld .topicsInactive with
